@@ -41,9 +41,9 @@ def c_str(s):
 
 
 def c_fault(f):
-    cname, site, mro = f
-    return "{| f_fn := %s; f_site := %s; f_exc := %s |}" % (cname, "None" if site is None else "(Some %s)" % cnat(site),
-                                                            clist([c_str(c) for c in mro]))
+    cname, site, mro, atrecv = f
+    return "{| f_fn := %s; f_site := %s; f_recv := %s; f_exc := %s |}" % (
+        cname, "None" if site is None else "(Some %s)" % cnat(site), cbool(atrecv), clist([c_str(c) for c in mro]))
 
 
 def c_event(e):
@@ -205,7 +205,7 @@ def collect(ctx, res, scenarios, results, model_ok):
         if case is None:
             continue
         for e in case["events"]:
-            for cname, site, mro in e["faults"]:
+            for cname, site, mro, _ in e["faults"]:
                 key = "%s@%s:%s" % (cname, site, mro[0])
                 points[key] = points.get(key, 0) + 1
         if case["anomalies"]:
